@@ -206,6 +206,35 @@ pub fn c06t_holders_opt() { holders::<Option<u16>, 8>(0) }
 #[kani::unwind(19)]
 pub fn c06t_holders_compact() { holders::<Compact<u64>, 20>(0) }
 
+/// holders as ELEMENTS of slice-backed collections: the bytes are those of the values, never of the pointers
+#[kani::proof]
+#[kani::unwind(10)]
+pub fn c06q_collections_of_holders() {
+	let x: [u16; 2] = kani::any();
+	let mut exp = Buf::<8>::new();
+	put_compact(2, &mut exp);
+	x[0].spec_enc(&mut exp); x[1].spec_enc(&mut exp);
+	let mut exp_arr = Buf::<8>::new();
+	x[0].spec_enc(&mut exp_arr); x[1].spec_enc(&mut exp_arr);
+	macro_rules! chk { ($e:expr, $exp:ident, $msg:literal) => {{ let mut r = Buf::<8>::new(); $e.encode_to(&mut r); assert!(same_bytes(&r, &$exp), $msg); }}; }
+	let vr: Vec<&u16> = alloc::vec![&x[0], &x[1]];
+	chk!(vr, exp, "Vec<&T> does not encode like Vec<T>");
+	let vb: Vec<Box<u16>> = alloc::vec![Box::new(x[0]), Box::new(x[1])];
+	chk!(vb, exp, "Vec<Box<T>> does not encode like Vec<T>");
+	let ar: [Rc<u16>; 2] = [Rc::new(x[0]), Rc::new(x[1])];
+	chk!(ar, exp_arr, "[Rc<T>; N] does not encode like [T; N]");
+	let sl: &[Arc<u16>] = &[Arc::new(x[0]), Arc::new(x[1])];
+	chk!(sl, exp, "[Arc<T>] does not encode like [T]");
+	let mut dq: VecDeque<Cow<u16>> = VecDeque::with_capacity(2);
+	dq.push_back(Cow::Borrowed(&x[0])); dq.push_back(Cow::Owned(x[1]));
+	chk!(dq, exp, "VecDeque<Cow<T>> does not encode like VecDeque<T>");
+	let y: [u8; 2] = kani::any();
+	let v8: Vec<&u8> = alloc::vec![&y[0], &y[1]];
+	let mut r = Buf::<8>::new(); v8.encode_to(&mut r);
+	assert!(r.n == 3 && r.d[1] == y[0] && r.d[2] == y[1], "Vec<&u8> does not encode the bytes");
+	core::mem::forget((vr, vb, ar, dq, v8));
+}
+
 /// negative twin: "a deque encodes its physical buffer order" must FAIL
 #[kani::proof]
 #[kani::unwind(8)]
